@@ -329,8 +329,15 @@ func PartialSigMsg(ks *tu.TestKeySet, typ spectypes.PartialSigMsgType, slot phas
 	}
 	var outer []byte
 	if sk, ok := ks.Shares[id]; ok {
-		if s, err := tu.NewTestingKeyManager().SignRoot(msgs, spectypes.PartialSignatureType, sk.GetPublicKey().Serialize()); err == nil {
-			outer = s
+		// the operator signature over the message (the runner does not verify it; message validation does). Cached: BLS signing is slow.
+		if r, err := msgs.GetRoot(); err == nil {
+			k := fmt.Sprintf("%d/%d/%x", ks.ShareCount, id, r)
+			if c, ok := outerSigCache[k]; ok {
+				outer = c
+			} else if s, err := tu.NewTestingKeyManager().SignRoot(msgs, spectypes.PartialSignatureType, sk.GetPublicKey().Serialize()); err == nil {
+				outer = s
+				outerSigCache[k] = s
+			}
 		}
 	}
 	if outer == nil {
@@ -340,6 +347,8 @@ func PartialSigMsg(ks *tu.TestKeySet, typ spectypes.PartialSigMsgType, slot phas
 }
 
 var shareSigCache = map[string][]byte{}
+var outerSigCache = map[string][]byte{}
+var decidedCache = map[string]*specqbft.SignedMessage{}
 
 // ShareSig is operator id's real BLS share signature over root (cached: BLS signing is slow).
 func ShareSig(ks *tu.TestKeySet, id spectypes.OperatorID, root [32]byte) []byte {
@@ -397,15 +406,29 @@ func SigningRoot(obj ssz.HashRoot, dt phase0.DomainType) [32]byte {
 
 // DecidedMsg: a commit message for `fullData` aggregated from the given signers' REAL signatures (a valid certificate when |ids| >= quorum).
 func DecidedMsg(ks *tu.TestKeySet, identifier []byte, height specqbft.Height, round specqbft.Round, fullData []byte, ids []spectypes.OperatorID) *specqbft.SignedMessage {
-	sks := make([]*bls.SecretKey, len(ids))
-	for i, id := range ids {
-		sks[i] = ks.Shares[id]
-	}
 	root, err := specqbft.HashDataRoot(fullData)
 	if err != nil {
 		panic(err)
 	}
-	return tu.TestingCommitMultiSignerMessageWithParams(sks, ids, round, height, identifier, root, fullData)
+	key := fmt.Sprintf("%d/%x/%d/%d/%x/%v", ks.ShareCount, identifier, height, round, root, ids)
+	if m, ok := decidedCache[key]; ok { // BLS signing is slow: one certificate per distinct (committee, duty, value, signer set)
+		cp := *m
+		cp.Signers = append([]spectypes.OperatorID{}, m.Signers...)
+		cp.Signature = append([]byte{}, m.Signature...)
+		cp.FullData = append([]byte{}, m.FullData...)
+		return &cp
+	}
+	sks := make([]*bls.SecretKey, len(ids))
+	for i, id := range ids {
+		sks[i] = ks.Shares[id]
+	}
+	m := tu.TestingCommitMultiSignerMessageWithParams(sks, ids, round, height, identifier, root, fullData)
+	decidedCache[key] = m
+	cp := *m
+	cp.Signers = append([]spectypes.OperatorID{}, m.Signers...)
+	cp.Signature = append([]byte{}, m.Signature...)
+	cp.FullData = append([]byte{}, m.FullData...)
+	return &cp
 }
 
 // FirstIDs returns operator ids 1..k.
